@@ -6,7 +6,7 @@ CONSTANTS
   NP = 2
   Names = {"a", "b"}
   Vals = {1, 2}
-  Acts = {"CreateGroup", "CreateObject", "AddData", "AddVisual", "AddComment", "AddFile", "CreateWithUid", "Rename", "SetFlag", "SetVal", "SetMeta", "Move", "MoveSame", "AddToGroup", "AddDataFails", "StripOpt", "SaveAs", "Helper", "Copy2", "Remove2", "ScrubData", "CreateDeferred", "PGWithUid", "RemoveFromGroup", "RemovePG", "RemoveViaWorkspace", "RemoveViaParent", "DropRef", "Collect", "Purge", "LookupDead", "Copy", "Close", "Open", "RemoveBlocked", "OpenAgain", "SetType", "Copy2Data", "RemoveNotAChild", "CopyIntoSelf", "AddDataLike", "RemovePair"}
+  Acts = {"CreateGroup", "CreateObject", "AddData", "AddVisual", "AddComment", "AddFile", "CreateWithUid", "Rename", "SetFlag", "SetVal", "SetMeta", "Move", "MoveSame", "AddToGroup", "AddDataFails", "StripOpt", "SaveAs", "Helper", "Copy2", "Remove2", "ScrubData", "CreateDeferred", "PGWithUid", "RemoveFromGroup", "RemovePG", "RemoveViaWorkspace", "RemoveViaParent", "DropRef", "Collect", "Purge", "LookupDead", "Copy", "Close", "Open", "RemoveBlocked", "OpenAgain", "SetType", "Copy2Data", "RemoveNotAChild", "CopyIntoSelf", "AddDataLike", "RemovePair", "AddDataRefused"}
   Deviations = {"CloseKeepsOrphans"}
   MaxDepth = 60
 CONSTRAINT DepthBound
